@@ -201,7 +201,10 @@ EXTRA_MANIFESTS = {
     "requirements.txt": ["requests==2.31.0\r\nflask>=2\r\n", "requests\n\n# trailing comment", "Security==1.0\n", "DEFUSEDXML\nflask_wtf\n", "defusedxml>=0.6 # pinned\n",
                          "black ; python_version > '3.8'\npkg[extra]~=1.0\n", "-r base.txt\n"],
     "pyproject.toml": ['[project]\nname = "x"\nversion = "0.1"\ndependencies = []\n', '[project]\nname = "x"\nversion = "0.1"\ndependencies = [\n  "Defusedxml>=0.1",\n  "requests",\n]\n',
-                       '[tool.poetry]\nname = "x"\nversion = "0.1"\n[tool.poetry.dependencies]\npython = "^3.10"\n\n[tool.poetry.group.dev.dependencies]\nmypy = "*"\n'],
+                       '[tool.poetry]\nname = "x"\nversion = "0.1"\n[tool.poetry.dependencies]\npython = "^3.10"\n\n[tool.poetry.group.dev.dependencies]\nmypy = "*"\n'] + [
+                       # poetry tables that already declare the package, in the constraint spellings poetry accepts
+                       f'[tool.poetry]\nname = "x"\nversion = "0.1"\n\n[tool.poetry.dependencies]\npython = "^3.10"\n{name} = "{spec}"\nrequests = "^2"\n'
+                       for name, spec in [("defusedxml", "^0"), ("DefusedXML", "^0"), ("defusedxml", "^0.7"), ("Defusedxml", "^0.7.1"), ("defusedxml", ">=0.7"), ("defusedxml", "~0.7"), ("defusedxml", "0.7.1")]],
     "setup.py": ['from setuptools import setup\nsetup(name="x", install_requires=["requests", "defusedxml"])\n', 'from setuptools import setup\nsetup(name="x")\n'],
     "setup.cfg": ["[metadata]\nname = x\nrequires-dist =\n    requests\n\n[options]\ninstall_requires =\n    flask\n    requests\n", "[options]\ninstall_requires =\n    requests\n",
                   "[options]\ninstall_requires =\n    Defusedxml\n    requests\n", "[metadata]\nname = x\n"],
@@ -281,7 +284,7 @@ def search(ctx):
                 n_new = m["after"].count("defusedxml") - m["before"].count("defusedxml")
                 if lost:
                     fail("requirement-lost", f"{k}: previously declared requirements {lost} are gone", layout=layout)
-                elif n_new != 1:
+                elif n_new != (0 if "defusedxml" in m["before"] else 1):
                     present = "defusedxml" in m["before"]
                     fail("already-declared" if present else "new-requirement-count", f"{k}: defusedxml now declared {m['after'].count('defusedxml')} time(s) (before {m['before'].count('defusedxml')})",
                          layout=layout, spelling="case" if present else "")
